@@ -76,7 +76,21 @@ func flagName(v bool) string {
 // Encode calls API.Encode on a value of the top type.
 func (x *Runner) Encode(v reflect.Value, validation bool) (b []byte, outcome string) {
 	var err error
+	before := customMemory(x.Env.Schema, v)
+	tableIntact()
 	p := hx.Safely(func() { b, err = x.Env.API.Encode(ctxBg, v.Interface(), x.Env.Opts(validation)...) })
+	// Encode must not write into memory owned by the values it encodes (custom Serializable types hand
+	// out views into their own backing arrays)
+	if after := customMemory(x.Env.Schema, v); before != after {
+		x.fail("custom-memory", "Encode modified the backing array of a custom Serializable value (bytes behind the slice its Encode returned); "+
+			x.where()+x.replay("enc "+flagName(validation)+" "+ValText(x.Env.Schema, v, TextOpts{})),
+			x.sig("custom-memory", "value-backing-array", validation))
+	}
+	if !tableIntact() {
+		x.fail("custom-memory", "Encode modified the package-level table a custom Serializable type's Encode returns views of; "+
+			x.where()+x.replay("enc "+flagName(validation)+" "+ValText(x.Env.Schema, v, TextOpts{})),
+			x.sig("custom-memory", "shared-table", validation))
+	}
 	switch {
 	case p != "":
 		return nil, "panic"
